@@ -463,8 +463,21 @@ def gen_op(rng, w, stats):
             return add_op(rng, w, u, 1 if not lp[1] else 0, rng.choice(live_lk))
         # ---------------- what has to be REFUSED: tokens of different pairs / farms offered to one merge
         if roll < 0.10:
-            c = rng.randint(0, 7)
-            if c <= 2 and lp[0] and lp[1]:
+            av = []
+            if lp[0] and lp[1]:
+                av += ["wlp", "wlp", "wlp"]
+            if live_lk and (lp[0] or lp[1]):
+                av += ["add"]
+            if lp[0] or lp[1]:
+                av += ["remove"]
+            if lp[1]:
+                av += ["lpfarm"]
+            if fm[0] and fm[1]:
+                av += ["wfm", "wfm", "wfm", "wfm"]
+            if (fm[1] and live_lk) or (fm[0] and lp[0]):
+                av += ["enter", "enter"]
+            c = rng.choice(av) if av else None
+            if c == "wlp":
                 (n0, v0), (n1, v1) = rng.choice(lp[0]), rng.choice(lp[1])
                 ps = [[3, n0, part_amount(rng, v0)], [3, n1, part_amount(rng, v1)]]
                 if rng.random() < 0.3 and len(lp[0]) + len(lp[1]) > 2:
@@ -473,33 +486,34 @@ def gen_op(rng, w, stats):
                 if rng.random() < 0.5:
                     ps.reverse()
                 return ["MergeWlp", u, ps]
-            if c == 3 and live_lk and (lp[0] or lp[1]):
+            if c == "add":
                 pid = 0 if lp[1] and (not lp[0] or rng.random() < 0.5) else 1      # add on pair pid, merge in the OTHER pair's tokens
                 return add_op(rng, w, u, pid, rng.choice(live_lk), extra_from=lp[1 - pid])
-            if c == 4 and (lp[0] or lp[1]):
+            if c == "remove":
                 pid = 0 if lp[0] and (not lp[1] or rng.random() < 0.5) else 1
                 n, v = rng.choice(lp[pid])
                 return ["RemoveLiq", u, 1 - pid, [3, n, part_amount(rng, v)], 1, 1]         # the other pair is named
-            if c == 5 and lp[1]:
+            if c == "lpfarm":
                 n, v = rng.choice(lp[1])
                 return ["EnterFarm", u, 1, [3, n, part_amount(rng, v)], []]                  # the LP farm takes pair 0's LP token
-            if c in (6, 7) and fm[0] and fm[1]:
+            if c == "wfm":
                 (m0, v0), (m1, v1) = rng.choice(fm[0]), rng.choice(fm[1])
                 ps = [[4, m0, part_amount(rng, v0)], [4, m1, part_amount(rng, v1)]]
+                if rng.random() < 0.3 and len(fm[0]) + len(fm[1]) > 2:
+                    m2, v2 = rng.choice([x for x in fm[0] + fm[1] if x[0] not in (m0, m1)])
+                    ps.insert(rng.randint(0, 2), [4, m2, part_amount(rng, v2)])
                 if rng.random() < 0.5:
                     ps.reverse()
-                if c == 6:
-                    return ["MergeWfm", u, rng.choice([0, 1]), ps]
+                return ["MergeWfm", u, rng.choice([0, 1]), ps]
+            if c == "enter":
                 # enter one farm and merge in a position of the other one
-                f = rng.choice([0, 1])
-                cand = fm[1 - f]
-                m, v = rng.choice(cand)
-                if f == 0 and live_lk:
+                f = 0 if fm[1] and live_lk and (not (fm[0] and lp[0]) or rng.random() < 0.5) else 1
+                m, v = rng.choice(fm[1 - f])
+                if f == 0:
                     n, vv = rng.choice(live_lk)
                     return ["EnterFarm", u, 0, [2, n, log_amount(rng, min(vv, 10 ** 16))], [[4, m, part_amount(rng, v)]]]
-                if f == 1 and lp[0]:
-                    n, vv = rng.choice(lp[0])
-                    return ["EnterFarm", u, 1, [3, n, part_amount(rng, vv)], [[4, m, part_amount(rng, v)]]]
+                n, vv = rng.choice(lp[0])
+                return ["EnterFarm", u, 1, [3, n, part_amount(rng, vv)], [[4, m, part_amount(rng, v)]]]
             roll = 0.10 + rng.random() * 0.36
         # ---------------- the second pair
         if roll < 0.14:
